@@ -2,6 +2,7 @@ package checks
 
 import (
 	"fmt"
+	"strings"
 	"testing"
 
 	"pgregory.net/rapid"
@@ -317,6 +318,111 @@ func TestC05NameKeyCollide(t *testing.T) {
 		})
 		if msg != "" {
 			fail(rt, "C05", "c05", msg, c)
+		}
+	})
+}
+
+// ---- the cache over dynamically typed (JSON) fields --------------------------
+
+type c05DynCase struct {
+	Query string     `json:"query"`
+	Pairs []lib.Pair `json:"pairs"`
+	Batch int        `json:"batch"`
+}
+
+func init() {
+	registerReplay("c05dyn", func(c *c05DynCase) string { m, _ := checkC05Dyn(c); return m })
+}
+
+// c05DynTemplates: named fields over JSON members whose kind changes from
+// row to row, used in WHERE and in other fields. The reference evaluator has
+// no semantics for these; the oracle is the property's second sentence:
+// within one iteration mode the outcome with the cache on equals the outcome
+// with the cache off (the same rows, or a failure both times).
+var c05DynTemplates = []string{
+	"select key, json(value)['m'] = json(value)['n'] as same where same & key ^= ''",
+	"select key, json(value)['m'] = json(value)['n'] as same where same | key = 'zz'",
+	"select key, json(value)['m'] != json(value)['n'] as ne where !ne",
+	"select key, json(value)['m'] as j where j = 'x' | key = 'zz'",
+	"select key, json(value)['m'] as j where j != 'q' & key ^= ''",
+	"select key, json(value)['m'] as j, j + 'x' as w where j != 'q'",
+	"select key, json(value)['m'] as j where j in ('x', '12')",
+	"select key, json(value)['m'] as j, json(value)['n'] as k where j = k",
+	"select key, json(value)['m'] as j, strlen(j) as l where l > 0",
+	"select key, json(value)['m'] as j, j = 'x' as isx where isx | !isx",
+}
+
+func checkC05Dyn(c *c05DynCase) (msg string, nontrivial bool) {
+	for _, mode := range []string{"row", "batch"} {
+		on := lib.Run(c.Query, lib.NewStore(c.Pairs), len(c.Pairs), lib.Cfg{Mode: mode, Batch: c.Batch, Cache: true})
+		off := lib.Run(c.Query, lib.NewStore(c.Pairs), len(c.Pairs), lib.Cfg{Mode: mode, Batch: c.Batch, Cache: false})
+		if on.BuildErr != nil || off.BuildErr != nil {
+			if (on.BuildErr == nil) != (off.BuildErr == nil) {
+				return fmt.Sprintf("query %q builds with the cache %v only", c.Query, on.BuildErr == nil), true
+			}
+			return "", false
+		}
+		if on.Panic != "" || off.Panic != "" || on.StepCap || off.StepCap {
+			return fmt.Sprintf("query %q over %v [%s, batch size %d]: cache on: %s; cache off: %s", c.Query, c.Pairs, mode, c.Batch, on.Describe(), off.Describe()), true
+		}
+		if (on.ExecErr == nil) != (off.ExecErr == nil) {
+			return fmt.Sprintf("query %q over %v [%s, batch size %d]: switching the field cache changes the outcome:\n  cache on:  %s\n  cache off: %s", c.Query, c.Pairs, mode, c.Batch, on.Describe(), off.Describe()), true
+		}
+		if on.ExecErr == nil {
+			if !lib.EqualRows(on.Rows, off.Rows) {
+				return fmt.Sprintf("query %q over %v [%s, batch size %d]: switching the field cache changes the rows:\n  cache on:  %s\n  cache off: %s", c.Query, c.Pairs, mode, c.Batch, lib.ShowRows(on.Rows), lib.ShowRows(off.Rows)), true
+			}
+			if len(on.Rows) > 0 && len(on.Rows) < len(c.Pairs) {
+				nontrivial = true
+			}
+		}
+	}
+	return "", nontrivial
+}
+
+// TestC05DynamicCache: JSON members of changing kind behind field names.
+func TestC05DynamicCache(t *testing.T) {
+	rapid.Check(t, func(rt *rapid.T) {
+		batch := rapid.SampledFrom([]int{1, 2, 3, 32}).Draw(rt, "batch")
+		// rows come in runs of one kind (often as long as a scan chunk, so
+		// that every scanned chunk is of one kind and the chunk of accepted
+		// rows is not); inside a run the values vary
+		kinds := [][]string{{`1`, `2`}, {`2.5`, `3.5`}, {`"x"`, `"y"`}, {`"12"`, `"13"`}, {`true`, `false`}, {`null`}, {`[1, 2]`, `["a"]`}, {`{"k": 1}`}, {``}}
+		var pairs []lib.Pair
+		for len(pairs) < 8 {
+			km := rapid.SampledFrom(kinds).Draw(rt, "kindM")
+			kn := km
+			if rapid.IntRange(0, 3).Draw(rt, "otherKind") == 0 {
+				kn = rapid.SampledFrom(kinds).Draw(rt, "kindN")
+			}
+			run := rapid.SampledFrom([]int{1, batch, batch, 2}).Draw(rt, "run")
+			if run > 4 {
+				run = 4
+			}
+			for j := 0; j < run; j++ {
+				m := rapid.SampledFrom(km).Draw(rt, "m")
+				nn := m
+				if rapid.Bool().Draw(rt, "differ") {
+					nn = rapid.SampledFrom(kn).Draw(rt, "n")
+				}
+				parts := []string{}
+				if m != "" {
+					parts = append(parts, `"m": `+m)
+				}
+				if nn != "" {
+					parts = append(parts, `"n": `+nn)
+				}
+				pairs = append(pairs, lib.Pair{K: fmt.Sprintf("k%02d", len(pairs)), V: "{" + strings.Join(parts, ", ") + "}"})
+			}
+		}
+		c := &c05DynCase{Query: rapid.SampledFrom(c05DynTemplates).Draw(rt, "template"), Pairs: pairs, Batch: batch}
+		lib.Journal("C05", "c05dyn", c)
+		msg, nt := checkC05Dyn(c)
+		lib.Stats.Case(nt, c.Query+"|"+fmt.Sprint(pairs, c.Batch), []string{"dynamic-json"}, func() any {
+			return map[string]any{"query": c.Query, "pairs": pairs, "batch": c.Batch}
+		})
+		if msg != "" {
+			fail(rt, "C05", "c05dyn", msg, c)
 		}
 	})
 }
